@@ -185,6 +185,79 @@ def t_state_classes(h):
     h.prove(bad == [], 'store-reset.state-classes-keep-no-mutable-object-at-class-level', {'class_level_objects': bad})
 
 
+SESSION_PATH = ['jesse/modes/backtest_mode.py', 'jesse/research/backtest.py', 'jesse/research/__init__.py', 'jesse/helpers.py', 'jesse/config.py',
+                'jesse/routes/__init__.py', 'jesse/strategies/Strategy.py', 'jesse/exchanges/sandbox/Sandbox.py', 'jesse/exchanges/exchange.py',
+                'jesse/libs/dynamic_numpy_array/__init__.py', 'jesse/utils.py', 'jesse/store/*.py', 'jesse/services/*.py', 'jesse/models/*.py',
+                'jesse/enums/*.py']
+
+
+def _immutable(v):
+    if isinstance(v, ast.Constant):
+        return True
+    if isinstance(v, ast.Tuple):
+        return all(_immutable(e) for e in v.elts)
+    if isinstance(v, ast.UnaryOp):
+        return _immutable(v.operand)
+    if isinstance(v, ast.BinOp):
+        return _immutable(v.left) and _immutable(v.right)
+    return False
+
+
+def t_module_state(h):
+    """mechanical inventory: every module-level mutable object of the modules a session runs through is either listed in
+    contracts/C11.MODULE_STATE (with the obligation that keeps it from leaking between sessions) or never written by any function of
+    its module.  An unknown object that IS written (a memo, a lazily filled list ...) survives an aborted session: the task then
+    leaves the verifier's reach (undecided) and the native session sequences stand in."""
+    import glob
+    root = h.repo.root
+    unknown = []
+    for pat in SESSION_PATH:
+        for path in sorted(glob.glob(os.path.join(root, pat))):
+            mod = os.path.relpath(path, root)[:-3].replace(os.sep, '.')
+            if mod.endswith('.__init__'):
+                mod = mod[:-9]
+            try:
+                tree = ast.parse(open(path, encoding='utf-8').read())
+            except SyntaxError:
+                continue
+            names = []
+
+            def visit(body):
+                for st in body:
+                    if isinstance(st, (ast.If, ast.Try)):
+                        visit([x for x in ast.iter_child_nodes(st) if isinstance(x, ast.stmt)])
+                        for hd in getattr(st, 'handlers', []):
+                            visit(hd.body)
+                    if isinstance(st, (ast.Assign, ast.AnnAssign)) and st.value is not None and not _immutable(st.value):
+                        tg = st.targets[0] if isinstance(st, ast.Assign) else st.target
+                        if isinstance(tg, ast.Name):
+                            names.append(tg.id)
+            visit(tree.body)
+            for nm in names:
+                if f'{mod}.{nm}' in K.MODULE_STATE:
+                    continue
+                written = False
+                for fn in ast.walk(tree):
+                    if not isinstance(fn, (ast.FunctionDef, ast.AsyncFunctionDef)):
+                        continue
+                    for n in ast.walk(fn):
+                        if isinstance(n, ast.Call) and isinstance(n.func, ast.Attribute) and n.func.attr in K.MUTATORS \
+                                and isinstance(n.func.value, ast.Name) and n.func.value.id == nm:
+                            written = True
+                        if isinstance(n, ast.Subscript) and isinstance(n.ctx, (ast.Store, ast.Del)) and isinstance(n.value, ast.Name) and n.value.id == nm:
+                            written = True
+                        if isinstance(n, ast.Global) and nm in n.names:
+                            written = True
+                        if isinstance(n, ast.AugAssign) and isinstance(n.target, ast.Name) and n.target.id == nm:
+                            written = True
+                if written:
+                    unknown.append(f'{mod}.{nm}')
+    if unknown:
+        from pyvc.values import OutOfSubset
+        raise OutOfSubset(f'module-level state outside the inventory of contracts/C11.py is written on the session path: {unknown}')
+    h.prove(True, 'module-state.every-written-module-level-object-on-the-session-path-is-in-the-inventory', {'inventory': len(K.MODULE_STATE)})
+
+
 def t_router(h):
     """two sessions with the same route arguments: RouterClass.initiate installs them and leaves the caller's lists alone"""
     calls = []
@@ -352,8 +425,12 @@ def tasks(tier):
           Task('store-reset', t_store_reset, extra=dict(x), overrides=dict(ov)),
           Task('state-classes', t_state_classes, extra=dict(x)),
           Task('router', t_router, extra=dict(x), overrides=dict(ov)),
+          Task('module-state', t_module_state, extra=dict(x)),
           Task('prologue.warmup', t_prologue(True), extra=dict(x), overrides=dict(ov)),
           Task('prologue.nowarmup', t_prologue(False), extra=dict(x), overrides=dict(ov)),
           Task('drivers', t_drivers, extra=dict(x), overrides=dict(ov)),
           Task('result-fresh', t_result_fresh, extra=dict(x), overrides=dict(ov))]
+    # arguments left unmodified, down to the hyperparameters dict that reaches the strategy (shared with C19)
+    import props.C19 as P19
+    ts += [t for t in P19.tasks(tier) if t.id.startswith('precedence.explicit1')]
     return ts
